@@ -358,6 +358,23 @@ pub fn check(ctx: &Ctx) -> i32 {
             }
         }
     }
+    // creation times on either side of every width a header could store them in: 31 / 32 bits of
+    // Unix seconds, 32 bits of seconds since 1904 (2^32 - 2 082 844 800), and far beyond - a
+    // header box that switches version with a metadata value must still follow that version's layout
+    let times: [u64; 14] = [0, 1, (1 << 31) - 1, 1 << 31, 2_212_122_495, 2_212_122_496, 2_212_122_497, (1 << 32) - 1, 1 << 32, (1 << 32) + 2_082_844_800, 1 << 33, 253_402_300_799, 1 << 40, 1 << 62];
+    for (ti, &tm) in times.iter().enumerate() {
+        for (ci, &codec) in oracle::frames::VCODECS.iter().enumerate() {
+            for (ai, ac) in [None, Some(ACodec::AacLc), Some(ACodec::Opus)].into_iter().enumerate() {
+                for fs in [true, false] {
+                    let mut c = Cfg::basic(codec, ac, fs);
+                    let title = if (ti + ci) % 2 == 0 { Some("t".to_string()) } else { None };
+                    let lang = if (ti + ai) % 3 == 0 { Some("deu".to_string()) } else { None };
+                    c.meta = Some(oracle::model::Meta { title, time: Some(tm), lang });
+                    progs.push((c, 1 + (ti + ci + ai) % 3));
+                }
+            }
+        }
+    }
     let mut frags = vec![];
     for &codec in &oracle::frames::VCODECS {
         for via in [true, false] {
